@@ -603,13 +603,19 @@ class DAGRunConcurrentManager(DAGRunManagerLike):
         except SwitchCaseDoesNotExistError as ex:
             await self.__raise_exc(ex)
 
-        return await self._run_dag(
+        result = await self._run_dag(
             dag=self._get_reduced_dag(
                 self.dag.input_node,
                 (self._node_storage.get_switch_result(node_id)).node_id,
                 is_oneof=dag.is_oneof,
             ),
         )
+
+        # The selected case may have been computed (and its notifications sent) before the switch was resolved.
+        # Hence, the consumers of the switch have to re-check their dependencies now.
+        await self.__unlock_descendants(node_id)
+
+        return result
 
     async def _run_node(
         self,
